@@ -65,7 +65,9 @@ impl ZmqMessageProcessor {
     let mut greedy_buf = [0u8; INGRESS_GREEDY_CHUNK];
     while total_read < max_greedy_read {
       match reader.try_read_chunk(&mut greedy_buf) {
-        Ok(0) => return Err(ZmqError::ConnectionClosed),
+        // EOF behind data: hand over what was read first; the next call sees the EOF again
+        // (its first read returns 0) and reports the close then.
+        Ok(0) => break,
         Ok(n) => {
           buf.extend_from_slice(&greedy_buf[..n]);
           total_read += n;
